@@ -116,6 +116,14 @@ type MineOpts struct {
 	OddScript bool
 }
 
+// DifficultyRunaway is the panic value of the model miner when a scenario has
+// made blocks so fast for so many retarget periods that the next block would
+// be too expensive to mine. It says something about the scenario, nothing about
+// the code under test: engines may end such a run without a verdict.
+type DifficultyRunaway string
+
+func (d DifficultyRunaway) Error() string { return string(d) }
+
 // OddScript returns the unparseable output script used for MineOpts.OddScript
 // (salted so that blocks differ).
 func OddScript(height int32, salt uint32) []byte {
@@ -222,7 +230,7 @@ func (t *Tree) Extend(parent *Block, o MineOpts) *Block {
 	}
 	target := CompactToBig(hdr.Bits)
 	if w := Work(hdr.Bits); w.BitLen() > 22 {
-		panic(fmt.Sprintf("chainmodel: block at height %d would cost about 2^%d hashes to mine (bits %08x): the scenario let the difficulty run away", height, w.BitLen(), hdr.Bits))
+		panic(DifficultyRunaway(fmt.Sprintf("chainmodel: block at height %d would cost about 2^%d hashes to mine (bits %08x): the scenario let the difficulty run away", height, w.BitLen(), hdr.Bits)))
 	}
 	for nonce := uint32(0); ; nonce++ {
 		hdr.Nonce = nonce
